@@ -24,7 +24,8 @@ RULE = ("case = series of 5..80 points (uniform / non-uniform; smooth, noisy or 
         " Round-4 classes: a 'long' kind - 1001..2500 samples, two series agreeing at both ends and differing in the middle fitted one after the other with the same s (two objects, the same object before / after the event, the function), each judged against its own samples."
         " Round-5 classes: a 'huge' kind - 33 000..70 000 samples (smooth signal + tiny noise, s well above the noise energy)."
         " Round-6 classes: a 'sizes' kind - lengths 2**15, 2**16, 40000 .. 80000, each -1 / 0 / +1, smoothed with s = 0 and with s > 0."
-        " Round-7 classes: a smoothing step before the caller edits the get() array in place and asks for the function; excess residuals that SciPy's own splrep reproduces while reporting success are the known finding K3.")
+        " Round-7 classes: a smoothing step before the caller edits the get() array in place and asks for the function; excess residuals that SciPy's own splrep reproduces while reporting success are the known finding K3."
+        " Round-9 classes: to_function() evaluated half a step and one ulp outside either end of the data (must be finite).")
 REQUIRED_MONITORS = ["c16:long_series", "c16:special_sizes", "c16:to_function", "c16:smooth_residual", "c16:smooth_zero", "c16:affine", "c16:default_s"]
 ASSUMPTIONS = ["FITPACK non-convergence warnings discard the run (the property's quantifier)"]
 NSHARDS = 16
